@@ -68,7 +68,8 @@ def _hasinf(obs):
 
 
 def coq_case(case, obs):
-    if 'exc' in obs or ('err' not in obs and _hasinf(obs)) or case.get('exact') or (obs.get('err') == 'Other:OverflowError' and not case.get('intonly')):
+    import re as _re
+    if 'exc' in obs or ('err' not in obs and _hasinf(obs)) or case.get('exact') or (obs.get('err') == 'Other:OverflowError' and not case.get('intonly')) or _re.search(r'[0-9.][eE][0-9]', case['prog']):
         return None                               # an infinity, a floating-point overflow (e.g. the 1e300 sentinel of an aggregate over no value, squared) or a value decided by cancellation is not a value of the rational model: left to the oracle
     n = len(case['X'])
     ex4 = case.get('extra')
@@ -228,7 +229,7 @@ def gen_tree(rng, d, top=True):
         return t if rng.random() < 0.6 else ['bin', rng.choice(['+', '-', '*']), t, gen_tree(rng, 1, False)]
     r = rng.random()
     if d == 0 or r < 0.22:
-        return ['name', rng.choice(TNAMES)] if rng.random() < 0.7 else ['lit', rng.choice(['2', '3', '0.5', '10', '1', '0'])]
+        return ['name', rng.choice(TNAMES)] if rng.random() < 0.7 else ['lit', rng.choice(['2', '3', '0.5', '10', '1', '0', '2', '3', '0.5', '1e3', '2E3', '1.5e2'])]      # other spellings of numbers: exponents (oracle only: the model's lexer reads plain decimals)
     if r < 0.72:
         return ['bin', rng.choice(list(PREC)), gen_tree(rng, d - 1, False), gen_tree(rng, d - 1, False)]
     if r < 0.80:
